@@ -21,7 +21,8 @@ what such a harness would still miss; round 5 = `e-*` were asked for a realistic
 lines: a new option, a cache, a helper, an optimisation) that breaks the property as an unintended side effect in a
 corner, reachable with all defaults; round 6 = `f-*` got exactly the round-1 prompt again (property text only, no hints),
 as a fresh independent sample of "what a maintainer might break" against the checks as they had become; round 7 = `g-*`
-were feature pull requests again (other features than in round 5). `r-*` are the opposite kind: refactorings that PRESERVE all properties (soundness
+were feature pull requests again (other features than in round 5); round 8 = `h-*` got the round-2 prompt again ("a
+different mechanism than the earlier authors", now with seven earlier mechanisms listed). `r-*` are the opposite kind: refactorings that PRESERVE all properties (soundness
 round, see the end of this file).
 
 History of first contact (checks as they stood when the change arrived):
@@ -35,6 +36,7 @@ History of first contact (checks as they stood when the change arrived):
 | 5 (e) | 10 (e-c01 e-c04 e-c05 e-c06 e-c08 e-c09 e-c10 e-c11 e-c14 e-c17) | 4 (e-c02 by C06, e-c07 by C08/C09, e-c13 by C16, e-c15 by C11) | 5 (e-c03 e-c12 e-c16 e-c18 e-c19; siblings tried: C04 C11 / C06 C08 C09 / - / - / -) |
 | 6 (f) | 17 | 0 | 2 (f-c11: id released when the response write fails after the bytes left; f-c15: serialisation moved behind the truncating open) |
 | 7 (g) | 11 (g-c01 g-c02 g-c03 g-c04 g-c05 g-c06 g-c08 g-c09 g-c10 g-c14 g-c18) | 4 (g-c11 by C03/C04, g-c13 by C16, g-c15 by C16, g-c19 by C07/C12) | 4 (g-c07 g-c12 g-c16 g-c17) |
+| 8 (h) | 14 | 0 | 5 (h-c02 h-c12 h-c13 h-c14 h-c15; h-c15 is the same defect as h-c16, which C16 caught) |
 
 Every miss led to an extension of the target property's check (DESIGN.md 9.5). With the current checks all {n} are
 caught by the check of the property they were written against (one exception: g-c13 - a save that joins an
